@@ -260,8 +260,17 @@ func c12Run(cfg c12Config, kv []string, behindSSL ...bool) explore.Result {
 		res.Fail("session-authorization", fmt.Sprintf("session_authorization = %q but the connecting user is %q", sa, seen.user))
 	}
 	// ... and they stay that way: after more than a buffer granule of later traffic the handler still sees them
-	for _, n := range []int{3000, 2000} {
+	for _, n := range []int{3000, 2000, 3000, 1500} {
 		one.Step(pgproto.Query(strings.Repeat("x", n)))
+	}
+	if !cfg.Auth {
+		// ... and other clients come and go meanwhile (their start-up packets are read by the same server)
+		for i := 0; i < 3; i++ {
+			oc := one.Server.Connect()
+			oc.Step(pgproto.Startup("user", "somebody-else-entirely", "database", "another-database", "application_name", strings.Repeat("o", 40)))
+			oc.Step(pgproto.Terminate())
+			oc.End()
+		}
 	}
 	late := &c12Seen{}
 	*late = *seen
@@ -269,11 +278,11 @@ func c12Run(cfg c12Config, kv []string, behindSSL ...bool) explore.Result {
 	if harness.Kinds(out) == "CZ" {
 		for k, v := range seen.client {
 			if !sent[string(k)][v] {
-				res.Fail("client-parameters", fmt.Sprintf("after 5 KB of later traffic the handler sees client parameter %q=%q which the client did not send (sent %v)", k, v, kv))
+				res.Fail("client-parameters", fmt.Sprintf("after 9 KB of later traffic and three other clients the handler sees client parameter %q=%q which the client did not send (sent %v)", k, v, kv))
 			}
 		}
 		if len(seen.client) != len(sent) {
-			res.Fail("client-parameters", fmt.Sprintf("after 5 KB of later traffic the handler sees %d client parameters, %d were sent: %v", len(seen.client), len(sent), seen.client))
+			res.Fail("client-parameters", fmt.Sprintf("after 9 KB of later traffic and three other clients the handler sees %d client parameters, %d were sent: %v", len(seen.client), len(sent), seen.client))
 		}
 		if u := string(seen.client["user"]); seen.user != u || (len(users) > 0 && !containsStr(users, seen.user)) {
 			res.Fail("authenticated-username", fmt.Sprintf("after later traffic AuthenticatedUsername = %q (sent users %v)", seen.user, users))
@@ -471,6 +480,35 @@ func c12Pairs(tier string) int {
 }
 
 func c12Enumerate(tier string, emit explore.Emit) {
+	// long values: start-up values of 63 ... 1200 bytes (user, database, another key) and configured parameters /
+	// version strings of 1000 ... 5000 bytes (around 1 KiB and 4 KiB buffers)
+	for _, auth := range []bool{false, true} {
+		for _, n := range []int{63, 64, 65, 72, 128, 300, 1200} {
+			for _, key := range []string{"user", "database", "application_name"} {
+				kv := []string{"user", "alice", key, strings.Repeat("n", n-1) + "Z"}
+				if key == "user" {
+					kv = kv[2:]
+				}
+				cfg := c12Config{Name: fmt.Sprintf("global=nil version=\"\" auth=%v", auth), Auth: auth}
+				emit(explore.Case{Family: "startup", Size: 5,
+					Desc: func() any { return map[string]any{"config": cfg.Name, "startup_key": key, "value_bytes": n} },
+					Run:  func() explore.Result { return c12Run(cfg, kv) }})
+			}
+		}
+		for _, n := range []int{1000, 1008, 1011, 1012, 1017, 1018, 1024, 1100, 4090, 5000} {
+			for _, where := range []string{"global", "version"} {
+				cfg := c12Config{Name: fmt.Sprintf("a configured %s value of %d bytes, auth=%v", where, n, auth), Auth: auth}
+				if where == "global" {
+					cfg.Global = wire.Parameters{"a": "1", "long_parameter": strings.Repeat("g", n), "z": "26"}
+				} else {
+					cfg.Version = strings.Repeat("9", n)
+				}
+				emit(explore.Case{Family: "startup", Size: 5,
+					Desc: func() any { return map[string]any{"config": cfg.Name, "startup_pairs": []string{"user", "alice"}} },
+					Run:  func() explore.Result { return c12Run(cfg, []string{"user", "alice"}) }})
+			}
+		}
+	}
 	cfgs := c12Configs()
 	npairs := len(c12Keys) * len(c12Vals)
 	for _, cfg := range cfgs {
